@@ -2,11 +2,22 @@
 use crate::decode::DecodeLevel;
 use crate::server::handler::{RequestHandler, ServerHandlerMap};
 use crate::server::address_filter::AddressFilter;
-use crate::shims::net2::{TcpListener, TcpStream, SocketAddr, TcpServerConnectionHandler};
+use crate::shims::net2::{TcpListener, TcpStream, SocketAddr};
+use crate::server::handler::AuthorizationHandler;
 
 //@item rodbus/src/tcp/server.rs | SessionClose
+// how a connection is upgraded: plain TCP, or TLS with the server configuration and an optional authorization handler
+//@item rodbus/src/tcp/server.rs | TcpServerConnectionHandler | derive=
+impl Clone for TcpServerConnectionHandler {
+    #[verifier::external_body]
+    fn clone(&self) -> (r: Self) ensures r == *self { unimplemented!() }
+}
+//@trusted TcpServerConnectionHandler: #[derive(Clone)] replaced by a clone() with `ensures r == *self` (structural clone; Arc::clone shares the handler)
 //@item rodbus/src/tcp/server.rs | ServerTask
-//@trusted ServerTask::handle (tokio::spawn of the session, ext_body): assumed to keep the tracker invariant; session ids do not overflow u128
+//@trusted session ids do not overflow u128 (assumed at the entry of ServerTask::handle: 2^128 accepted connections are out of reach)
+//@trusted run_session (TLS handshake, then SessionTask::run over the socket): assumed contract (external_body), no postcondition used
+
+//@fn rodbus/src/tcp/server.rs | run_session | tags=C15 | ext_body
 
 impl<T> ServerTask<T> where T: RequestHandler {
     // the task keeps a sender of its own session-close channel, so that channel never reports "closed" [C07: the unwrap in run cannot panic]
@@ -14,12 +25,28 @@ impl<T> ServerTask<T> where T: RequestHandler {
 
 //@fn rodbus/src/tcp/server.rs | ServerTask<T>::new | tags=C15,C16
 //@|    ensures r.filter == filter, r.decode == decode, r.wf(), r.tracker@.dom().len() == 0, r.tracker.id == 0,
+//@|        r.connection_handler == connection_handler, r.handlers == handlers, r.listener == listener,
+//@|        r.tracker.max_sessions == (if max_sessions == 0 { 1 } else { max_sessions }),
 
 // [C16] a session (and with it any TLS handshake) is started only for a peer whose address matches the configured filter:
 // this is the precondition of `handle`, which every call site must establish
-//@fn rodbus/src/tcp/server.rs | ServerTask<T>::handle | tags=C15,C16 | ext_body
+//@fn rodbus/src/tcp/server.rs | ServerTask<T>::handle | tags=C15,C16 | r22
 //@|    requires old(self).filter.spec_matches(addr.spec_ip()), old(self).wf(),
-//@|    ensures final(self).filter == old(self).filter, final(self).wf(),
+//@|    ensures final(self).filter == old(self).filter, final(self).wf(), final(self).decode == old(self).decode,
+//@|        final(self).rx == old(self).rx, final(self).tx == old(self).tx,
+//@|        // [C15] the new session is entered in the table under a fresh id; at the limit it takes the place of the oldest one
+//@|        final(self).tracker@.contains_key(old(self).tracker.id), final(self).tracker.id == old(self).tracker.id + 1,
+//@|        final(self).tracker.max_sessions == old(self).tracker.max_sessions,
+//@|        old(self).tracker@.dom().len() < old(self).tracker.max_sessions ==> final(self).tracker@.dom() == old(self).tracker@.dom().insert(old(self).tracker.id),
+//@|        old(self).tracker@.dom().len() >= old(self).tracker.max_sessions ==>
+//@|            final(self).tracker@.dom() == old(self).tracker@.dom().remove(old(self).tracker.oldest()).insert(old(self).tracker.id),
+//@entry| assume(self.tracker.id < u128::MAX);
+//@async 0|    pub async fn handle__session(socket: tokio::net::TcpStream, addr: SocketAddr, connection_handler: TcpServerConnectionHandler,
+//@async 0|        decode_level: DecodeLevel, handler_map: ServerHandlerMap<T>, rx: tokio::sync::mpsc::Receiver<ServerCommand>,
+//@async 0|        mut notify_close: tokio::sync::mpsc::Sender<SessionClose>, id: u128) -> (r: ())
+//@asyncend 0| // [C15] however the session ends, its id is reported back to the server task with an awaited send, which fails only
+//@asyncend 0| // when that task is gone - a best-effort notification could be lost while the task is busy and leave a dead entry in the table
+//@asyncend 0| assert(notify_close.delivered(SessionClose(id)) || notify_close.receiver_gone());
 
 // [C20] a decode-level change is applied locally (for new sessions) and forwarded; nothing else changes
 //@fn rodbus/src/tcp/server.rs | ServerTask<T>::apply_command | tags=C20 | ext_body
